@@ -68,10 +68,10 @@ where
     #[inline(always)]
     unsafe fn flush_len(&mut self, additional: usize) -> io::Result<()> {
         self.buffer.flush_len(additional)?;
-        self.inner.write_all(&self.buffer)?;
+        let res = self.inner.write_all(&self.buffer);
+        // also after a failed write: what was buffered must not be sent again by a later use
         self.buffer.clear();
-
-        Ok(())
+        res
     }
 }
 
